@@ -3,5 +3,6 @@ pub mod exec;
 pub mod gen;
 pub mod model;
 pub mod props;
+pub mod sched;
 pub mod spec;
 pub mod traits;
